@@ -187,6 +187,23 @@ def gen_plan(rng):
                                             (-1, 1)]),
                       'after': rng.choice([rng.below(12), rng.below(60)])})
 
+    srv_kinds = [rng.choice(['cb', 'proc']) for _ in range(3)]
+    window = rng.choice([100, 4096, 2097152])
+
+    if rng.chance(8):
+        # both directions full, the writer waiting in drain(), then the
+        # peer closes: in-flight state first, then the event that meets it
+        a = [['w', rng.choice([40000, 100000])], ['drain']]
+        b = [['w', rng.choice([40000, 100000])]] + \
+            [['y']] * rng.below(4) + [[rng.choice(['close', 'abort'])]]
+        first = rng.chance(50)
+        chans.insert(0, {'kind': 'proc', 'req': 'exec',
+                         'c': a if first else b, 's': b if first else a,
+                         'start_delay': 0, 'via': 'conn', 'inner_up': True})
+        srv_kinds = ['proc']
+        window = rng.choice([100, 4096])
+        fault = {'kind': 'none'}
+
     return {
         'drbg': rng.below(1 << 30),
         'profile': {
@@ -195,14 +212,14 @@ def gen_plan(rng):
             'latency_ms': rng.choice([0, 0, 1, 50, 2000]),
             'capacity': rng.choice([0, 0, 0, 4096]),
         },
-        'srv_kinds': [rng.choice(['cb', 'proc']) for _ in range(3)],
+        'srv_kinds': srv_kinds,
         'remote_fwd': rng.chance(20),
         'channels': chans,
         'fault': fault,
         'teardown': rng.choice(['client_close', 'server_close',
                                 'client_abort', 'cut_rst', 'cut_eof',
                                 'server_disconnect']),
-        'window': rng.choice([100, 4096, 2097152]),
+        'window': window,
         # a server session that is over before it began: exit status and/or
         # close from connection_made(), i.e. right behind the confirmation
         'early': rng.choice([None, None, None,
@@ -420,6 +437,7 @@ class Run:
         self.own_tunnels = []
         self.aborted = []
         self.abort_sent = []
+        self.cur = {}
         self.sess_count = 0
         self.conn = None
         self.acceptor = None
@@ -439,6 +457,10 @@ class Run:
         for op in ops:
             try:
                 k = op[0]
+                # what this script is waiting in, for the oracles that look
+                # at a quiescent world
+                self.cur[name] = (k, getattr(chan, '_conn', None),
+                                  getattr(chan, '_recv_chan', None))
 
                 if k == 'w':
                     if proc is not None:
@@ -493,6 +515,8 @@ class Run:
             except OK_ERRORS as exc:
                 self.op_errors += 1
                 self.world.event(name, 'op-error', k, type(exc).__name__)
+
+        self.cur.pop(name, None)
 
     # -- server side -----------------------------------------------------------------------
 
@@ -886,6 +910,24 @@ def run_plan(plan, sched_seed=None, sched_replay=None):
     if not sim.loop.capped:
         # a channel that was aborted locally and whose peer has sent its
         # CLOSE must be closed by now, with or without the connection
+        # drain() "returns only when more can be written or fails if the
+        # channel is gone": once the peer's CLOSE is in, it cannot stay
+        # blocked, whatever the reader of the same channel is doing
+        for name, (k, owner_conn, num) in sorted(run.cur.items()):
+            if k != 'drain' or owner_conn is None or num is None:
+                continue
+
+            for label, pkts in sim.pkts.items():
+                if sim.conns.get(label) is owner_conn and any(
+                        d == 'R' and t == 97 and len(payload) >= 5 and
+                        int.from_bytes(payload[1:5], 'big') == num
+                        for d, t, _seq, payload, _note in pkts):
+                    world.violation(
+                        'hang', '%s: the peer has closed the channel, yet '
+                        'drain() on it is still waiting' % name,
+                        sig='drain-after-peer-close')
+                    break
+
         for name, owner_conn, peer_num in run.abort_sent:
             sent_close = False
 
